@@ -34,7 +34,8 @@ type scanObs struct {
 
 type scanRec struct {
 	start, end int64
-	seekFrom   int // -1 = SeekFirst
+	seekFrom   int  // -1 = SeekFirst
+	reused     bool // the iterator object had run an earlier scan to its end
 	obs        []scanObs
 	interval   int
 	paused     bool
@@ -157,12 +158,22 @@ func c15Run(c *rt.C) {
 		go func(g int) {
 			defer swg.Done()
 			lr := rand.New(rand.NewSource(c.Seed + 7777 + int64(g)))
+			var it *skiplist.Iterator
+			lastInterval := 0
 			for k := 0; k < scansPer; k++ {
-				b := s.MakeBuf()
-				it := s.NewIterator(skiplist.CompareInt, b)
-				rec := scanRec{seekFrom: -1, interval: pick(lr, 0, 1, 2, 3, 7, 50)}
+				// half of the scans that ran to the end hand their iterator object to the next scan
+				// ("all scan start points" includes re-positioning an exhausted iterator)
+				reused := it != nil
+				if it == nil {
+					it = s.NewIterator(skiplist.CompareInt, s.MakeBuf())
+					lastInterval = 0
+				}
+				rec := scanRec{seekFrom: -1, interval: pick(lr, 0, 1, 2, 3, 7, 50), reused: reused}
 				if rec.interval > 0 {
 					it.SetRefreshInterval(rec.interval)
+					lastInterval = rec.interval
+				} else {
+					rec.interval = lastInterval
 				}
 				rec.paused = lr.Intn(4) == 0
 				c0 := s.GetStats().ReadConflicts
@@ -201,7 +212,15 @@ func c15Run(c *rt.C) {
 				}
 				rec.end = Tick()
 				rec.conflicts = s.GetStats().ReadConflicts - c0
-				it.Close()
+				if !it.Valid() && k+1 < scansPer && lr.Intn(2) == 0 {
+					// keep the exhausted iterator for the next scan
+				} else {
+					if rec.paused && lr.Intn(2) == 0 {
+						it.Pause() // a paused iterator that is closed without being resumed holds nothing any more
+					}
+					it.Close()
+					it = nil
+				}
 				scans[g] = append(scans[g], rec)
 			}
 		}(g)
@@ -265,7 +284,7 @@ func c15Run(c *rt.C) {
 				conflictScans++
 			}
 			c.Evals(1)
-			c.Sig("scan/seek=%v/interval=%d/paused=%v/conflicts=%v/mem=%s", sc.seekFrom >= 0, sc.interval, sc.paused, sc.conflicts > 0, mem)
+			c.Sig("scan/seek=%v/interval=%d/paused=%v/conflicts=%v/reused-iterator=%v/mem=%s", sc.seekFrom >= 0, sc.interval, sc.paused, sc.conflicts > 0, sc.reused, mem)
 			witness := func() interface{} {
 				var o []string
 				for i, x := range sc.obs {
@@ -352,7 +371,7 @@ func init() {
 	rt.Register(&rt.Prop{
 		ID: "C15", Level: "exploration",
 		Technique: "runtime monitoring: scans with logical start/end and per-observation stamps judged against stable items and per-key single-owner churn logs (conservative interval reasoning)",
-		Rule: "cases 0-3: directed, hook-free — an iterator with refresh interval 1 (user-managed memory) is parked inside its own comparator while Refresh re-seeks the current item; that item is deleted and flushed meanwhile; the iterator must not touch released memory, go backwards or lose a stable item. Other cases: 5-60 stable items with 1-5 churn keys between neighbours (so the node under the iterator, its predecessor and successor are constantly inserted and deleted), 1-8 mutators (one owner per churn key) and 1-8 scanners running 6 scans each from SeekFirst or Seek(x), refresh interval ∈ {none,1,2,3,7,50}, a quarter with Pause/Resume; Go-managed, poison and pageguard memory; perturbation at the skiplist hook points. Judged: never backwards; equal neighbours only with a delete+re-insert overlapping the gap; every returned churn key possibly present during the scan; every stable or certainly-present item ≥ the start returned (stable ones exactly once); Seek lands ≥ x with no stable item skipped. " +
+		Rule: "cases 0-3: directed, hook-free — an iterator with refresh interval 1 (user-managed memory) is parked inside its own comparator while Refresh re-seeks the current item; that item is deleted and flushed meanwhile; the iterator must not touch released memory, go backwards or lose a stable item. Other cases: 5-60 stable items with 1-5 churn keys between neighbours (so the node under the iterator, its predecessor and successor are constantly inserted and deleted), 1-8 mutators (one owner per churn key) and 1-8 scanners running 6 scans each from SeekFirst or Seek(x), refresh interval ∈ {none,1,2,3,7,50}, a quarter with Pause/Resume (half of those end with Pause then Close without Resume); half of the scans that reach the end hand their exhausted iterator object to the next scan; Go-managed, poison and pageguard memory; perturbation at the skiplist hook points. Judged: never backwards; equal neighbours only with a delete+re-insert overlapping the gap; every returned churn key possibly present during the scan; every stable or certainly-present item ≥ the start returned (stable ones exactly once); Seek lands ≥ x with no stable item skipped. " +
 			"evaluations = scans judged; distinct = (seek?, refresh interval, paused, took the read-conflict path?, memory) tuples",
 		Assumptions: []string{"with user-managed memory the harness re-seeks its last value after Pause/Resume (Pause drops the accessor token, so the current node may have been reclaimed); with Go-managed memory it simply continues with Next", "each churn key has a single owner, so its log is a sequence of completed operations"},
 		Cases: func(t string) int {
